@@ -28,35 +28,41 @@ CLAIMED = {
             'protocol safe for the memory orders found in the source, and obligations over tables regenerated from the CURRENT source on every run (every access to mutex-protected state with the '
             'lock state at the access; every atomic operation with its order) re-proved by kernel evaluation; ThreadSanitizer workload as search', 'Lean 4 proof + translators regenerating lock/atomics tables from source + TSan search', '7 C10'),
     'C11': ('crc_detects_single_byte (every alteration confined to one byte of a checksummed region changes the CRC: no probabilistic hypothesis), read_sound for the log reader, footer '
-            'padding irrelevance; real databases copied and damaged (tables at positions over the whole file, logs, MANIFEST, CURRENT) and read back with paranoid checks and checksum verification: '
+            'padding irrelevance, altered_table_partial / single_byte_alteration_detected over the table model; whole tables with every mutation class vs the model; real databases copied and damaged (tables at positions over the whole file, logs, MANIFEST, CURRENT) and read back with paranoid checks and checksum verification: '
             'right answer or error, complete scan or error; never a value that was not written', 'Lean 4 proof + corruption replay on real databases', '7 C11'),
     'C12': ('kill/close durability theorems applied to the conforming prefix before the fault; fault-injection runs of the real code (k-th call fails; ENOSPC/EIO/EMFILE/ENOENT; one-shot/persistent; '
-            'partial writes) through the same crash oracle: no crash or hang, reads correct, every acknowledged write present after reopen', 'Lean 4 proof + fault-injection trace validation', '7 C12'),
-    'C13': ('keep-rule/live-set model: at every quiescent point the directory must contain exactly the live tables, the current log(s), one MANIFEST; every live file number below next_file_number',
+            'partial and short writes; histories that close and reopen under the fault) plus a systematic enumeration of every intercepted call of a reopen, a flush and a manual compaction, through the same '
+            'crash oracle: no crash or hang, reads correct, the database opens once the fault is gone, every acknowledged write present after reopen', 'Lean 4 proof + fault-injection trace validation', '7 C12'),
+    'C13': ('keep-rule/live-set model: at every quiescent point the directory must contain exactly the live tables, the current log(s), one MANIFEST; every live file number below next_file_number; '
+            'every unlink of the real journal judged by the storage-protocol monitor (nothing a recoverable version needs), also while garbage collection races with the foreground and after failed flushes/compactions',
             'Lean 4 proof + trace validation of real histories against the model', '7 C13'),
     'C14': ('Inv (sorted disjoint levels, file bounds, recency, distinct numbers) proved preserved by every contract-satisfying step; evaluated on every reconstructed version of real histories; '
             'layout after reopen must equal the model\'s', 'Lean 4 proof + trace validation of real histories against the model', '7 C14'),
     'C02': ('synced_durable / crash_image_readable over the storage-protocol model: for every trace accepted by the monitor (Conforms), every crash point and every crash image the model allows, '
             'recovery succeeds and every sync-acknowledged batch is replayed or its log retired; the monitor is evaluated on the real system-call journal (MANIFEST bytes decoded by the Lean decoders) and '
-            'sampled crash images are materialised and reopened with the real code', 'Lean 4 proof + trace validation of real I/O journals + crash-image replay', '7 C02'),
+            'sampled crash images are materialised and reopened with the real code, written to and reopened again; on concurrent runs a commit group holding a sync write must be fsynced before it is '
+            'acknowledged (sync_not_in_nonsync_group over the Conc model, acceptor + fsync observation)', 'Lean 4 proof + trace validation of real I/O journals + crash-image replay', '7 C02'),
     'C03': ('kill_durable / kill_recovers / kill_order over the same protocol model; kill images at journal prefixes reopened with the real code and checked against the acknowledged set',
             'Lean 4 proof + trace validation of real I/O journals + crash-image replay', '7 C03'),
-    'C04': ('batch byte format theorems (iterate∘encode, append, every proper prefix rejected) + exact differential correspondence of ldb_batch_* with the Lean model',
-            'Lean 4 proof + model/implementation correspondence', '7 C04'),
+    'C04': ('batch byte format theorems (iterate∘encode, append, every proper prefix rejected) + exact differential correspondence of ldb_batch_* with the Lean model; batch atomicity for concurrent '
+            'readers over the Conc model (batch_atomic_for_readers, group_preserves_batches) with real concurrent runs replayed on the model; crash images (kill, torn tail, zero block) recovered: '
+            'whole batches only', 'Lean 4 proof + model/implementation correspondence + schedule exploration + crash-image replay', '7 C04'),
     'C15': ('theorems over the Lean model of log_writer.c/log_reader.c/crc32c.c for all record lists, offsets and cut points (round trip, truncation, compositional reuse, CRC = bitwise CRC-32C, '
             'single-byte alterations always detected), re-checked by the kernel on every run; the model is tied to the code by exact byte/event correspondence on generated inputs',
             'Lean 4 proof + model/implementation correspondence', '7 C15'),
     'C16': ('round-trip and cursor theorems for blocks (block_roundtrip, blockIter_is_cursor), filters (bloom_no_false_negative, filter_covers_block), Snappy (snappy_roundtrip for the concrete encoder), '
-            'footer/handles, separator/successor contracts for ALL byte strings; byte-exact correspondence of every builder and reader with the Lean models, which are the independently written readers',
+            'footer/handles, separator/successor contracts for ALL byte strings, whole table files (build_wf, wf_reads, table_roundtrip); byte-exact correspondence of every builder and reader with the Lean models, which are the independently written readers',
             'Lean 4 proof + model/implementation correspondence', '7 C16'),
     'C17': ('varint32/64 and version-edit round-trip theorems for all values; tag constants re-extracted from the source and proved equal to the model; exact differential correspondence of '
-            'ldb_edit_export/import and the varint coders', 'Lean 4 proof + model/implementation correspondence', '7 C17'),
+            'ldb_edit_export/import and the varint coders; MANIFEST bytes of real histories (incl. reused MANIFESTs growing past 32 KiB blocks) decoded by the Lean decoders, CURRENT switches judged by the '
+            'storage-protocol monitor, every call of a MANIFEST roll-over failing in turn', 'Lean 4 proof + model/implementation correspondence + trace validation of real I/O journals', '7 C17'),
     'C18': ('no-fault/totality theorems for every modelled decoder (explicit guards mirrored from the C code; fault outcome unreachable), with sanitizer-backed differential fuzzing of the real decoders '
             'against the models on malformed and hand-crafted inputs', 'Lean 4 proof + sanitizer-backed differential correspondence', '7 C18'),
     'C19': ('repair theorems over the Repair/Lsm models (no entry lost or invented, iterator = newest per key, counters continue, point lookups correct iff numbering follows age, with a '
             'kernel-checked witness for the failing case); repair histories on the real database validated against the rebuilt model state', 'Lean 4 proof + trace validation of real histories against the model', '7 C19'),
-    'C20': ('owned-file-name grammar theorem for ldb_parse_filename (destroy touches only owned names) + exact correspondence on all short strings; lifecycle sequences vs model',
-            'Lean 4 proof + model/implementation correspondence', '7 C20'),
+    'C20': ('owned-file-name grammar theorem for ldb_parse_filename (destroy touches only owned names) + exact correspondence on all short strings; lifecycle histories on the real database (second '
+            'open, lock probes from another process, backups incl. refused ones, copy, wrong comparators incl. name prefixes/extensions, destroy with foreign files) judged by tracecheck',
+            'Lean 4 proof + model/implementation correspondence + trace validation of lifecycle histories', '7 C20'),
 }
 
 ALL = ['C%02d' % i for i in range(1, 21)]
